@@ -47,12 +47,18 @@ def gen(ctx, n):
     scs = []
     for i in range(n):
         r = rng.random()
-        if r < 0.55:
+        if r < 0.30:
             scs.append(T.gen_scenario(rng, "mixed"))
-        elif r < 0.8:
+        elif r < 0.45:
             scs.append(T.gen_rowprop(rng))
-        else:
+        elif r < 0.55:
             scs.append(T.gen_degenerate(rng))
+        elif r < 0.72:
+            scs.append(T.gen_batch(rng))          # several literals of one variable in one propagation batch
+        elif r < 0.86:
+            scs.append(T.gen_row_batch(rng))      # the same along a tableau row
+        else:
+            scs.append(T.gen_const_rows(rng))     # new_var(lin) with known terms, set_lb / set_ub, relations over basic variables
     return scs
 
 
@@ -171,6 +177,18 @@ def run(ctx):
             mism += 1
             if first is None:
                 first = (si, d)
+    # ---- exact expectations carried by the generated scenarios (verdicts of root-level histories with known-term rows and
+    #      set_lb / set_ub; feasibility of conjunctions re-checked after backtracking from batch conflicts)
+    n_exp, bad_exp = T.check_expectations(ctx, report, scs, "E reset".join([""] + out["impl_text"].split("E reset")[1 + len(diff_corp):]), "generated")
+    cov["expectations_checked"] = n_exp
+    # ---- which lemma / conflict branches of lra_constraint.cpp were reached
+    cov["branches_from_trace"] = dict(sorted(T.classify_branches(impl).items()))
+    try:
+        g = T.gcov_branches(vlib, "".join(scripts), timeout=200 if ctx.thorough else 60)
+    except Exception as e:  # coverage is evidence, never a verdict
+        g = {"error": repr(e)}
+    cov["branch_coverage_gcov_lra_constraint"] = g
+    cov["branches_not_reached"] = sorted(k for k, v in g.items() if isinstance(v, int) and v == 0)
     # ---- independent verdict check on root-level histories (before classifying a mismatch: a concrete failing input wins)
     T.verdict_probe(ctx, vlib, exe, report, 300 if not ctx.thorough else 4000)
     concrete = bool(ctx.violations) or bool(cov.get("pending_findings_hit"))
@@ -197,6 +215,10 @@ def run(ctx):
     cov["evaluations"] = stats["events"]
     cov["scenarios"] = len(scripts)
     cov["distinct_nontrivial"] = stats["lemma_events"] + stats["conflicts_check"] + stats["conflicts_propagate"] + stats["pops"]
+    cov["rule_round2"] = ("batches: a decision d with clauses (!d | L_i) forcing 2-4 literals of one variable / of a sum and its summands in ONE propagation, "
+                          "optionally one of them a level earlier (distinct bound reasons), then backtracking and checklits of random conjunctions against exact "
+                          "feasibility; known-term rows: 2-4 new_var(lin) with constants (also over other slacks), set_lb / set_ub, new relations over the rows' "
+                          "variables asserted at root, every verdict against Fourier-Motzkin")
     cov["rule"] = ("random systems (2-6 variables, 3-12 relations, coefficients in {-3..3} and small fractions, strict and non-strict, shared and "
                    "cancelling sub-expressions, relations over slack variables), root assertions, assume/negate/pop walks, degenerate cycles, "
                    "row-propagation profiles; non-trivial = events with a lemma, a conflict or a pop")
